@@ -932,7 +932,7 @@ class TemplateModel(object):
         channels_reordered = np.argsort(amplitude)[::-1]
         out = Bunch(
             template=template[..., channels_reordered],
-            amplitude=amplitude,
+            amplitude=amplitude[channels_reordered],
             best_channel=best_channel,
             channel_ids=channel_ids[channels_reordered],
         )
